@@ -42,9 +42,25 @@ func BuildOverlay(repo, pkgPath string, harness []string, zzvrfDir string, nativ
 			dir = filepath.Join(repo, h[i+1:])
 			h = h[:i]
 		}
+		// "file.go#name" rewrites the package clause, so that one world builder serves several packages
+		rename := ""
+		if i := strings.Index(h, "#"); i >= 0 {
+			rename = h[i+1:]
+			h = h[:i]
+		}
 		data, err := os.ReadFile(h)
 		if err != nil {
 			return nil, err
+		}
+		if rename != "" {
+			lines := strings.SplitN(string(data), "\n", -1)
+			for i, l := range lines {
+				if strings.HasPrefix(l, "package ") {
+					lines[i] = "package " + rename
+					break
+				}
+			}
+			data = []byte(strings.Join(lines, "\n"))
 		}
 		overlay[filepath.Join(dir, "zz_verif_"+filepath.Base(h))] = data
 	}
